@@ -537,6 +537,32 @@ pub fn run_probe(kind: u8, depth: u8, hold_point: u8) -> Value {
 // exploration cannot split); it is not part of the exhaustive claim.
 // ---------------------------------------------------------------------------------------------
 
+/// After the races of a stress child: the results computed through the tables of EVERY depth must be
+/// those of a single-threaded process (file written by the parent).  A value that is the same for
+/// all threads but wrong -- an object built once from state corrupted by a race elsewhere -- is
+/// only seen by this comparison.
+pub fn compare_with_reference(path: &str, problems: &mut Vec<String>) {
+  let text = match std::fs::read_to_string(path) {
+    Ok(t) => t,
+    Err(_) => return,
+  };
+  let reference: Value = match serde_json::from_str(&text) {
+    Ok(v) => v,
+    Err(_) => return,
+  };
+  for x in reference.as_array().map(|a| a.to_vec()).unwrap_or_default() {
+    let d = x["depth"].as_u64().unwrap_or(0) as u8;
+    match std::panic::catch_unwind(|| layer_results(d)) {
+      Ok(got) => {
+        if got != x {
+          problems.push(format!("depth {}: results through the tables after the races {} differ from the single-threaded reference {}", d, got, x));
+        }
+      }
+      Err(_) => problems.push(format!("depth {}: results through the tables panic after the races", d)),
+    }
+  }
+}
+
 /// A call that never returns (a waiter spinning on a flag that is never set) must end the child:
 /// after `secs` seconds the watchdog prints a RESULT line saying so and exits.
 pub fn stress_watchdog(secs: u64, what: &'static str) {
@@ -552,7 +578,7 @@ pub fn stress_watchdog(secs: u64, what: &'static str) {
 /// barrier with a small stagger (-10..10 steps of 25 ns, a function of the seed and the depth);
 /// then both tables are used again sequentially.  Exactly one construction per table and depth,
 /// every call returns, later calls obtain the same object.
-pub fn run_stress_mixed(round_seed: u64) -> Value {
+pub fn run_stress_mixed(round_seed: u64, reference: Option<&str>) -> Value {
   use std::sync::atomic::{AtomicUsize, Ordering};
   use std::sync::Arc;
   let mut problems: Vec<String> = vec![];
@@ -600,11 +626,14 @@ pub fn run_stress_mixed(round_seed: u64) -> Value {
       }
     }
   }
+  if let Some(p) = reference {
+    compare_with_reference(p, &mut problems);
+  }
   json!({"stress": "done", "problems": problems})
 }
 
-pub fn run_stress(round_seed: u64) -> Value {
-  use std::sync::{Arc, Barrier};
+pub fn run_stress(round_seed: u64, reference: Option<&str>) -> Value {
+  use std::sync::Arc;
   let nthreads = 15usize;
   let mut problems: Vec<String> = vec![];
   // round 1: distinct depths; round 2: three threads per depth (other depths)
@@ -616,13 +645,18 @@ pub fn run_stress(round_seed: u64) -> Value {
           (((base as u64 + round_seed) % 15) as u8 + if round == 0 { 0 } else { 15 }).min(29).max(if kind == 2 { 1 } else { 0 })
         })
         .collect();
-      let barrier = Arc::new(Barrier::new(nthreads));
+      // spin gate (a futex barrier wakes its waiters microseconds apart: the first uses would
+      // rarely overlap)
+      let gate = Arc::new(std::sync::atomic::AtomicUsize::new(0));
       let handles: Vec<_> = depths
         .iter()
         .map(|&d| {
-          let b = barrier.clone();
+          let g = gate.clone();
           std::thread::spawn(move || {
-            b.wait();
+            g.fetch_add(1, std::sync::atomic::Ordering::SeqCst);
+            while g.load(std::sync::atomic::Ordering::SeqCst) < nthreads {
+              std::hint::spin_loop();
+            }
             let c = Call { kind, depth: d };
             std::panic::catch_unwind(|| (do_call(&c), do_call(&c))).map_err(|_| "panic".to_string())
           })
@@ -650,6 +684,9 @@ pub fn run_stress(round_seed: u64) -> Value {
         }
       }
     }
+  }
+  if let Some(p) = reference {
+    compare_with_reference(p, &mut problems);
   }
   json!({"stress": "done", "problems": problems})
 }
